@@ -257,7 +257,7 @@ def check_cc(rep, proj, tier):
     for xval, what in ((1, "x = 1"), (Fraction(3, 2), "x > 1")):
         ev = S.Evaluator(proj, lenient_ext=True)
         try:
-            r = ev.call(S.FuncVal(ev, conv), [S.record("rsl"), xval, S.record("pdf_func")], {})
+            r = ev.call(S.FuncVal(ev, conv), [S.record("rsl", __strict__=True), xval, S.record("pdf_func", __strict__=True)], {})
             ok = isinstance(r, tuple) and len(r) == 2 and all(S.num_norm(v) == 0 for v in r)
             rep.check(ok, "C09.cc", conv.site, f"{conv.fq}[{what}]", "returns (0, 0) without touching the kernel or the basis function", f"returns {r}", key=what)
         except S.Raised as e:
@@ -281,6 +281,80 @@ def check_cc(rep, proj, tier):
     rep.floor("massive CC quadrature atoms", n_atoms, 50)
 
 
+MASS = {4: "mc", 5: "mb", 6: "mt"}
+MASK = {"c": 4, "b": 5, "t": 6}
+
+
+def _mass_job(kw):
+    """Every kernel that carries a heavy-quark mass must carry the mass of the quark its weights name."""
+    from .. import model
+    import re
+
+    proj = model.project()
+    try:
+        op = O.fold_op(proj, R.Cell(**kw))
+    except O.FoldFailure as f:
+        return ("fold", f.outcome.status, f"{f.outcome.etype} {f.outcome.msg}"[:160])
+    log = getattr(op.ev, "kernel_log", [])
+    bad = []
+    n = 0
+    for partons, coeff in log:
+        if not isinstance(coeff, S.ObjVal) or coeff.cinfo is None or not isinstance(partons, dict):
+            continue
+        # mass symbols carried by the channel object (m2hq, labda, L, m1sq, m2sq ...)
+        masses = set()
+        for name, v in coeff.attrs.items():
+            if isinstance(v, A.Rat):
+                masses |= {a for a in v.all_atoms() if a in ("mc", "mb", "mt")}
+        if not masses:
+            continue
+        # the quark named by the weights
+        quarks = set()
+        for pid, w in partons.items():
+            if isinstance(w, A.Rat):
+                for a in w.atoms():
+                    m = re.match(r"w\((\d+), (?:'\w+'|None)(?:, '(\w+)')?\)", a)
+                    if m:
+                        if m.group(2):  # CC: the CKM mask names the heavy quark
+                            quarks |= {MASK[ch] for ch in m.group(2) if ch in MASK}
+                        elif int(m.group(1)) >= 4 and int(m.group(1)) > kw["nfff"]:
+                            quarks.add(int(m.group(1)))
+        if len(quarks) != 1:
+            continue  # e.g. the 'missing' non-singlet kernels carry light-quark weights only
+        n += 1
+        q = next(iter(quarks))
+        if masses != {MASS[q]}:
+            bad.append(f"{coeff.cinfo.fq} built for the {MASS[q][1]} quark (weights {sorted(str(k) for k in partons)[:3]}...) carries the mass symbol(s) {sorted(masses)}")
+    return ("ok", sorted(set(bad))[:3], len(set(bad)), n)
+
+
+def check_mass(rep, proj, tier):
+    jobs = []
+    for kind, fl, (proc, projectile), (fns, nfff), pto in itertools.product(
+        ["F2", "FL", "F3"], ["total", "bottom", "top", "charm"], [("NC", "electron"), ("CC", "neutrino")],
+        [("FFNS", 3), ("FFNS", 4), ("FFN0", 3), ("FONLL-FFNS", 4)], [2]
+    ):
+        if fl == "charm" and nfff == 4:
+            continue
+        jobs.append(dict(obs=f"{kind}_{fl}", process=proc, projectile=projectile, fns=fns, nfff=nfff, pto=pto, ren_sv=False, fact_sv=False))
+    outs = sweep.run_cells(_mass_job, jobs)
+    n_k = 0
+    for kw, o in zip(jobs, outs):
+        label = f"{kw['obs']}|{kw['process']}|{kw['fns']}|NfFF={kw['nfff']}"
+        if o[0] == "fold":
+            if o[1] == "rejected":
+                rep.ok("C09.mass", "", label, f"configuration explicitly rejected ({o[2][:50]})")
+            else:
+                rep.undecided("C09.mass", "", label, f"not foldable ({o[1]}): {o[2]}")
+            continue
+        _, bad, nbad, n = o
+        n_k += n
+        rep.check(nbad == 0, "C09.mass", "src/yadism/coefficient_functions/heavy/kernels.py", label,
+                  f"{n} mass-carrying kernels each carry the mass of the quark their weights name (thresholds and slow rescaling use the produced quark's mass)",
+                  "; ".join(bad)[:500], key=label)
+    rep.floor("mass-carrying kernels inspected", n_k, 150)
+
+
 def run(rep, proj, tier):
     rep.explanation = (
         "Decides: is_below_pair_threshold folds to Q2 (1-z)/z <= 4 m^2 (three concrete orderings incl. equality, and the symbolic operands); no "
@@ -288,7 +362,9 @@ def run(rep, proj, tier):
         "quadrature of a massive NC coefficient function remains in any operator entry while above threshold they are present; every regular/"
         "singular closure of every NC heavy class x order returns exactly 0 when the predicate holds for its own integration variable; the CC "
         "heavy convolution point is x (1 + m^2/Q^2) in the class and in every massive CC quadrature atom of the folded operators, and "
-        "conv.convolution returns (0, 0) for points >= 1 - eps before touching kernel or basis. NOT decided: LeProHQ near threshold."
+        "conv.convolution returns (0, 0) for points >= 1 - eps before touching kernel or basis; every Kernel(weights, channel) built in the folded "
+        "FFNS/FFN0/FONLL runs whose channel carries a heavy-quark mass carries the mass of the quark its weights name (so that thresholds and slow "
+        "rescaling use the produced quark's mass). NOT decided: LeProHQ near threshold."
     )
     rep.rule_text = "classes and closures enumerated through the class hierarchy; cells from literal domains; distinct by construct/label."
     rep.trusted_base = ["CPython ast", "yadsa partial evaluator", "pcmodel (class x order folding through the MRO)"]
@@ -297,3 +373,4 @@ def run(rep, proj, tier):
     check_partonic(rep, proj)
     check_hadronic(rep, proj, tier)
     check_cc(rep, proj, tier)
+    check_mass(rep, proj, tier)
